@@ -84,6 +84,17 @@ impl Scenario for Batch {
                 }
             }
         }
+        // the reply to a call in flight on channel 1 and the server's close right behind it, in
+        // one read (mem_channel_bound 1 and 16: the reply queue has to hold both)
+        for close in ["SCh", "SC"] {
+            for bound in [1u64, 16] {
+                for extra in [vec![], vec!["A2"], vec!["K:blocked"]] {
+                    let mut ev: Vec<String> = vec!["R1".to_string(), close.to_string()];
+                    ev.extend(extra.iter().map(|x| x.to_string()));
+                    v.push(json!({"events": ev, "mode": "one", "stall": false, "precall": true, "bound": bound}));
+                }
+            }
+        }
         v
     }
     fn bound(&self, _tier: &str, _p: &Value) -> usize {
@@ -101,6 +112,15 @@ impl Scenario for Batch {
         let events: Vec<String> = p["events"].as_array().unwrap().iter().map(|x| x.as_str().unwrap().to_string()).collect();
         let separate = p["mode"] == "separate";
         let stall = p["stall"] == true;
+        let precall = p["precall"] == true;
+        let qbound = p["bound"].as_u64().unwrap_or(16) as usize;
+        if precall {
+            // channel 1: Open = request 1, Consume = 2 are answered at once; the purge issued before
+            // the batch (request 3) is answered when the batch says so ("R1")
+            broker.hold_replies = true;
+            broker.hold_after_seq = 2;
+            broker.manual_release = true;
+        }
         if stall {
             // the handshake, the two Channel.Open and the two Basic.Consume fit (296 bytes);
             // what the batch makes the client write meets a transport that takes 4 more bytes
@@ -111,7 +131,7 @@ impl Scenario for Batch {
             broker: Box::new(broker),
             cfg,
             root: Box::new(move |ctx: Ctx| {
-                let mut conn = match open(&ctx, ConnectionOptions::default().heartbeat(0), ConnectionTuning::default()) {
+                let mut conn = match open(&ctx, ConnectionOptions::default().heartbeat(0), ConnectionTuning::default().mem_channel_bound(qbound)) {
                     Ok(c) => c,
                     Err(e) => {
                         ctx.log(format!("open -> Err({})", err_name(&e)));
@@ -210,6 +230,11 @@ impl Scenario for Batch {
                 // ---- the batch
                 let _ = ctx.recv("ready", &ready);
                 let _ = ctx.recv("ready", &ready);
+                if precall {
+                    // a call on channel 1 goes out and stays unanswered
+                    let _ = go_a1_tx.send("A1:call".to_string());
+                    ctx.wait_blocked(a1);
+                }
                 ctx.wait_io_quiet();
                 ctx.hold_io(true);
                 for ev in &events {
@@ -217,6 +242,11 @@ impl Scenario for Batch {
                         "SC" | "SCh" => {
                             if !ctx.force_push(ev) {
                                 ctx.log(format!("push {} not possible", ev));
+                            }
+                        }
+                        "R1" => {
+                            if !ctx.force_push("release:1") {
+                                ctx.log("no held reply on channel 1");
                             }
                         }
                         e if e.starts_with("K:") => {
